@@ -253,6 +253,17 @@ func genSmallCmd(out string, seed uint64, thorough bool) error {
 			ops, snaps = so, sn
 			stats["scripts_multi_session"]++
 		}
+		if s%25 == 19 {
+			// a tail record larger than a 4 KiB page whose 8-byte frame header lands at a chosen
+			// offset modulo the sector size (504: the body starts exactly on a sector boundary)
+			target := []int{504, 496, 504, 0, 504, 8}[(s/25)%6]
+			bo, err := genBigRecordOps(r, root, wid+"t", &segsize, meta, target)
+			if err != nil {
+				return err
+			}
+			ops, snaps = bo, nil
+			stats["scripts_big_tail_record"]++
+		}
 		sr, err := runScript(root, wid, segsize, meta, ops, &didc)
 		if err != nil {
 			return err
@@ -570,4 +581,33 @@ func genSessionOps(r *rng, root, wid string, segsize *int64, meta []byte) ([]gen
 		ops = append(ops, save(3, 1, 20))
 	}
 	return ops, []walpb.Snapshot{snap1, snap2}, nil
+}
+
+// genBigRecordOps: a small synced Save padded so that the next frame header starts at
+// <target> mod 512, then one Save of a single entry of 4097..8000 bytes (the crash happens in it)
+func genBigRecordOps(r *rng, root, wid string, segsize *int64, meta []byte, target int) ([]genOp, error) {
+	*segsize = 16384
+	for p := 1; p < 600; p++ {
+		ops := []genOp{{kind: "save", st: raftpb.HardState{Term: 1, Vote: 1, Commit: 0},
+			ents: []raftpb.Entry{{Term: 1, Index: 1, Data: r.bytes(p)}}}}
+		c := 0
+		sr, err := runScript(root, wid, *segsize, meta, ops, &c)
+		if err != nil {
+			return nil, err
+		}
+		fl := sr.final.files
+		_, end := frameOffsets(fl[len(fl)-1].data)
+		if end%512 == target {
+			big := r.bytes(4097 + r.intn(3900))
+			for i := range big {
+				if big[i] == 0 {
+					big[i] = 0x5a
+				}
+			}
+			ops = append(ops, genOp{kind: "save", st: raftpb.HardState{Term: 1, Vote: 1, Commit: 1},
+				ents: []raftpb.Entry{{Term: 1, Index: 2, Data: big}}})
+			return ops, nil
+		}
+	}
+	return nil, fmt.Errorf("no padding puts the frame header at %d mod 512", target)
 }
